@@ -443,9 +443,13 @@ func TestC14(t *testing.T) {
 		s := &sp.Spaces[si]
 		for _, srcKind := range []string{"RGBA64", "NRGBA64"} {
 			for _, op := range []string{"Linearise", "Encode"} {
-				for _, layout := range []string{"plain", "source is a sub-image", "destination is a sub-image"} {
+				for _, layout := range []string{"plain", "source is a sub-image", "destination is a sub-image", "alpha high byte varies along the row"} {
 					var src image.Image
 					alphaAt := func(x, y int) uint16 { return uint16(y*256 + x) }
+					if layout == "alpha high byte varies along the row" {
+						// neighbours in a row share the low byte of alpha and differ in the high byte
+						alphaAt = func(x, y int) uint16 { return uint16(x*256 + y) }
+					}
 					srcParent := image.Rect(-5, 3, 251, 259)
 					if layout == "source is a sub-image" {
 						srcParent = image.Rect(-9, 1, 258, 262) // same visible pixels, wider rows
